@@ -58,6 +58,8 @@ def gen_history(r, maxlen=25):
     cnt = [10]
 
     def fresh():
+        if r.random() < 0.12:
+            return 0            # "reset to the empty configuration"
         cnt[0] += 1
         return cnt[0]
     names = r.choice((1, 2, 2, 3))
@@ -81,7 +83,7 @@ def gen_history(r, maxlen=25):
 
 FORMS = ['ST/0/1/-', 'CO/0/1/-', 'CO/1/1/-', 'RB/0/1/-', 'DE1/0/1/-', 'DE2/0/1/-', 'RE1/0/1/-',
          'RT1/0/1/-', 'RT1/0/0/-', 'DD{f}/0/1/-', 'DD{f}/1/1/-', 'SA{f}/0/1/-', 'QU/0/1/{f}',
-         'QU/1/0/-', 'B:RE1/0/1/-', 'B:DD{f},DE1/0/1/-', 'B:CO/0/1/-']
+         'QU/1/0/-', 'QU/0/1/0', 'SA0/0/1/-', 'B:RE1/0/1/-', 'B:DD{f},DE1/0/1/-', 'B:CO/0/1/-']
 
 
 def exhaustive(depth):
@@ -199,7 +201,7 @@ def run(tier):
         if model is not None:
             hok, _, mrest = model[i].partition(' ')
             n_hok += hok == 'H1'
-            if mrest != impl[i]:
+            if mrest != impl[i] and not (hok.startswith('H0@') and (first_diff(mrest, impl[i]) or 0) > int(hok[3:])):
                 # split: impl side vs oracle side
                 im = ' '.join(x.split('|')[0] for x in impl[i].split(' ') if x)
                 mm = ' '.join(x.split('|')[0] for x in mrest.split(' ') if x)
@@ -210,7 +212,9 @@ def run(tier):
                 if po != ms:
                     spec_mism.append(i)
         if bad is not None:
-            if hok == 'H0' and i not in mism and 'C09-F3' in known:
+            # known finding C09-F3: the history is outside hist_ok and the first divergence from the
+            # oracle comes after the RELEASE that made it so
+            if hok and hok.startswith('H0@') and bad > int(hok[3:]) and 'C09-F3' in known:
                 kf.append(i)
             else:
                 viol.append(i)
